@@ -31,10 +31,11 @@ func (c TCfg) Exact() bool     { return (int64(c.RefillSecs)*1_000_000_000)%(2*c
 func (c TCfg) TickNs() float64 { return 1e9 / c.Rate() }
 
 // TCase: event tokens
-//   S / Sf   upstream StartRecording (f: the wrapped recorder's StartRecording fails if called during this event)
-//   W / Wf   upstream WriteFrame
-//   X        upstream StopRecording
-//   a0..a3   clock advance: half a tick, one tick, min-length ticks (= min-refill), 10*capacity ticks
+//
+//	S / Sf   upstream StartRecording (f: the wrapped recorder's StartRecording fails if called during this event)
+//	W / Wf   upstream WriteFrame
+//	X        upstream StopRecording
+//	a0..a3   clock advance: half a tick, one tick, min-length ticks (= min-refill), 10*capacity ticks
 type TCase struct {
 	Cfg    TCfg     `json:"cfg"`
 	Events []string `json:"events"`
